@@ -49,7 +49,13 @@ def strategy_(draw, tier):
         lines = [gen_gaf.record_line(r) for r in recs]
     else:
         lines = [conv.stable_line(g["nodes"], r) for r in recs]
-    return {"gfa": gen_graph.gfa_text(g, with_seq=False, order_seed=draw(st.integers(0, 99))),
+    extra = None
+    if "real_window" not in g and draw(st.integers(0, 4)) == 0:
+        # the graph went through order_gfa before: every S line carries BO and NO (conversion ignores them)
+        from vf.props import c08
+
+        extra = c08.tag_graph(g)
+    return {"gfa": gen_graph.gfa_text(g, with_seq=False, order_seed=draw(st.integers(0, 99)), extra_tags=extra),
             "gaf": lines, "dir": direction, "via": draw(st.sampled_from(["api", "api", "cli", "cli_stdout"]))}
 
 
